@@ -43,6 +43,21 @@ impl Process for Rec {
     }
 }
 
+/// A process whose handler panics on `boom`: it dies without the orderly exit path (its registry entry and a
+/// closed mailbox stay behind), which is one more kind of recipient that cannot take a message.
+struct Panicker;
+
+impl Process for Panicker {
+    async fn handle_message(&mut self, msg: Message) -> edp_node::Result<()> {
+        if let Message::Regular { body, .. } = &msg {
+            if body.is_atom_with_name("boom") {
+                panic!("handler crashed on purpose");
+            }
+        }
+        Ok(())
+    }
+}
+
 fn pt(control: &Val, payload: Option<&Val>) -> Vec<u8> {
     let mut b = vec![112u8];
     b.extend(ref_encode_canonical(control).unwrap());
@@ -69,12 +84,14 @@ enum Fault {
     ReplyToUnknownCall,
     TruncatedPayload,
     LinkControl,
+    /// a message for a process whose handler has crashed
+    CrashedRecipient,
     Quiet,
 }
 
 const FAULTS: &[Fault] = &[
     Fault::Tick, Fault::UndecodableBody, Fault::BadMarker, Fault::ControlNotATuple, Fault::EmptyControlTuple, Fault::UnknownControlKind, Fault::UnknownPid,
-    Fault::UnknownName, Fault::ReplyToUnknownCall, Fault::TruncatedPayload, Fault::LinkControl,
+    Fault::UnknownName, Fault::ReplyToUnknownCall, Fault::TruncatedPayload, Fault::LinkControl, Fault::CrashedRecipient,
 ];
 
 #[derive(Clone, Copy, Debug, PartialEq, Eq)]
@@ -88,6 +105,7 @@ struct World {
     node: Arc<Node>,
     peer_node: String,
     procs: Vec<ExternalPid>,
+    panicker: ExternalPid,
     log: Arc<Mutex<Vec<Ev>>>,
 }
 
@@ -180,7 +198,9 @@ async fn setup(ctx: &Ctx, epmd: &net::EpmdTable, id: usize) -> Option<(World, Pe
         procs.push(p);
     }
     let _ = node.register(Atom::new("svc"), procs[1].clone()).await;
-    Some((World { node: Arc::new(node), peer_node, procs, log }, peer))
+    let panicker = node.spawn(Panicker).await.ok()?;
+    let _ = node.register(Atom::new("fragile"), panicker.clone()).await;
+    Some((World { node: Arc::new(node), peer_node, procs, panicker, log }, peer))
 }
 
 async fn routing_and_faults(ctx: &Ctx, rng: &mut Rng, epmd: &net::EpmdTable, id: usize, terminal: Terminal) {
@@ -334,6 +354,17 @@ async fn routing_and_faults(ctx: &Ctx, rng: &mut Rng, epmd: &net::EpmdTable, id:
                     Fault::LinkControl => {
                         let c = Val::Tuple(vec![Val::int(1), remote.clone(), pidval(&w.procs[2])]);
                         let _ = peer.write_frame4(&pt(&c, None)).await;
+                    }
+                    Fault::CrashedRecipient => {
+                        // make it crash (the first time), then write to it by pid, by name, and an exit notice
+                        let c = Val::Tuple(vec![Val::int(2), Val::atom(""), pidval(&w.panicker)]);
+                        let _ = peer.write_frame4(&pt(&c, Some(&Val::atom("boom")))).await;
+                        tokio::time::sleep(Duration::from_millis(30)).await;
+                        let _ = peer.write_frame4(&pt(&c, Some(&Val::Tuple(vec![Val::atom("late"), Val::int(uid)])))).await;
+                        let n = Val::Tuple(vec![Val::int(6), remote.clone(), Val::atom(""), Val::atom("fragile")]);
+                        let _ = peer.write_frame4(&pt(&n, Some(&Val::Tuple(vec![Val::atom("late"), Val::int(uid)])))).await;
+                        let x = Val::Tuple(vec![Val::int(3), remote.clone(), pidval(&w.panicker), Val::atom("bye")]);
+                        let _ = peer.write_frame4(&pt(&x, None)).await;
                     }
                     Fault::Quiet => {}
                 }
@@ -518,7 +549,7 @@ async fn quiet_period(ctx: &Ctx, epmd: &net::EpmdTable, id: usize, periods: usiz
 }
 
 pub fn run(ctx: &Ctx) {
-    ctx.rule("scenarios = scripted inbound histories over a real connection to a Node with three recording processes and one registered name: sends to pids and names, exit and monitor notifications, replies to outstanding remote calls, and after each fault (tick, undecodable body, wrong marker byte, control term that is not a tuple / empty tuple / unknown kind, unknown pid, unknown name, reply to an unknown call, truncated payload, link control) a probe message that must be delivered with the connection still registered; then the peer closes / ends the stream inside a frame / sends an over-long length and the connection must be deregistered within 5 s; plus bursts of 150..2600 frames (around the 1000-slot mailbox) for a process whose handler is gated or slow, each of which must be delivered exactly once; plus quiet periods of 12.5 s (longer than the node's fixed 10 s read timeout) each followed by a tick (so a tick is itself followed by a silence longer than the timeout), then a probe arriving in pieces and an ordinary probe; evaluations = routed frames, probes and terminal checks judged; distinct = distinct (frame kind / fault kind / terminal kind) labels");
+    ctx.rule("scenarios = scripted inbound histories over a real connection to a Node with three recording processes and one registered name: sends to pids and names, exit and monitor notifications, replies to outstanding remote calls, and after each fault (tick, undecodable body, wrong marker byte, control term that is not a tuple / empty tuple / unknown kind, unknown pid, unknown name, reply to an unknown call, truncated payload, link control, messages for a process whose handler has crashed) a probe message that must be delivered with the connection still registered; then the peer closes / ends the stream inside a frame / sends an over-long length and the connection must be deregistered within 5 s; plus bursts of 150..2600 frames (around the 1000-slot mailbox) for a process whose handler is gated or slow, each of which must be delivered exactly once; plus quiet periods of 12.5 s (longer than the node's fixed 10 s read timeout) each followed by a tick (so a tick is itself followed by a silence longer than the timeout), then a probe arriving in pieces and an ordinary probe; evaluations = routed frames, probes and terminal checks judged; distinct = distinct (frame kind / fault kind / terminal kind) labels");
     ctx.assume("verdicts by delivery of the probe, not by timing; the quiet-period scenario runs concurrently with the others");
     let mut rng = Rng::derive(ctx.seed, 19, 1);
     let rt = tokio::runtime::Builder::new_multi_thread().worker_threads(8).enable_all().build().expect("runtime");
